@@ -70,6 +70,36 @@ func (s *Store) SavePeerState(peer *Peer) error {
 	})
 }
 
+// MarkPeerPolled records that the peer was polled at the given time. The stored
+// record is read and written within one transaction, so a capability that the
+// message handler persisted in the meantime is kept.
+func (s *Store) MarkPeerPolled(id PeerID, at time.Time) error {
+	return s.db.Update(func(tx *bolt.Tx) error {
+		bucket := tx.Bucket(pollBucketName)
+		if bucket == nil {
+			return errPollBucketMissing
+		}
+
+		key := []byte(id.String())
+		value := bucket.Get(key)
+		if value == nil {
+			return ErrPeerNotFound
+		}
+
+		record, err := unmarshalPeerRecord(key, value)
+		if err != nil {
+			return err
+		}
+		peer, err := record.toPeer(string(key))
+		if err != nil {
+			return fmt.Errorf("materialize peer %s: %w", string(key), err)
+		}
+
+		peer.SetLastPollAt(at)
+		return persistPeer(bucket, key, peer)
+	})
+}
+
 // GetPeerState retrieves the stored state for a peer.
 func (s *Store) GetPeerState(id PeerID) (*Peer, error) {
 	var record peerRecord
